@@ -169,7 +169,7 @@ def _pool_worker(pool, index, task_queue, done_queue):
                             "link",
                             f"https://t.yandex-team.ru/trace/{invoke_trace_id:x}"
                         )
-                    invoke_span.set_attribute("func", pool.func.__name__)
+                    invoke_span.set_attribute("func", getattr(pool.func, "__name__", repr(pool.func)))
                     invoke_span.set_attribute("worker.id", worker_id)
                     if device_id:
                         invoke_span.set_attribute("device.id", device_id)
